@@ -617,7 +617,8 @@ def attachment(repo: Repo, rep, P: str):
                       "before applying stored values", f"{mr.file.rel}:{send.lineno}")
     # synth writer recomputes, project writer relies on the option callback (both filter by attached)
     synth = repo.cls("Synth", module="rv.synth")
-    if "recompute_controller_attachment" in norm(repo.own_method(synth, "chunks")):
+    from . import c02 as _c02
+    if "recompute_controller_attachment" in norm(_c02._writer_nf(repo, synth, "chunks")):
         rep.ok(f"{P}.R3", f"{synth.file.rel}:Synth.chunks", "recompute_controller_attachment before filtering", nontrivial=False)
 
 
